@@ -129,7 +129,8 @@ class C15(Property):
             "cancelled context, cleaner ticks (first and second retry), per-server snapshots; corpus: the whole API on "
             "every key. concurrency: 2-5 goroutines with 1-3 calls each on one ring, mostly on one contested node, a "
             "forced schedule at the granularity [Remove] ; [insert] (calls parked between their two critical sections "
-            "by the node's String()), Get for 24 probes after every step. non-trivial = ring: two members, a remove or re-add, some probe changes owner; script: "
+            "by the node's String()), Get for 24 probes after every step, lookups parked between slot lookup and member "
+            "pick (Stringer key on a shared slot) while a Remove / re-Add is started. non-trivial = ring: two members, a remove or re-add, some probe changes owner; script: "
             "touches on >= 2 servers; distinct = canonical JSON hash of the case")
     trusted_base = [
         "models theories/C15/Model.v, Cluster.v are hand-written; tie = correspondence runs (harness/cmd/c15) through the public API",
@@ -435,6 +436,21 @@ class C15(Property):
     def _op_len(o):
         return 1 if o[0] == "remove" else 2
 
+    @staticmethod
+    def _tid(st):
+        """a schedule step: a thread id, or ["g", probe, thread] (a lookup overlapping the thread's step)"""
+        return st if isinstance(st, int) else st[2]
+
+    @staticmethod
+    def _shared_strings(nodes, R):
+        """virtual-node strings repr+itoa(i), i < R, produced by two or more different reprs: a key with that text
+        lands exactly on a shared slot"""
+        own = {}
+        for rp in set(nodes):
+            for i in range(R):
+                own.setdefault(rp + str(i), set()).add(rp)
+        return sorted(k for k, v in own.items() if len(v) >= 2)
+
     def _conc_corpus(self):
         P = [S("key:%d" % i) for i in range(40)]
         others = [["add", 1], ["add", 2], ["add", 3]]
@@ -454,11 +470,21 @@ class C15(Property):
             # an update parked across a Remove of the same node: the insertion after the Remove makes it a member
             self._conc(0, nodes, [[["addw", 0, 50]], others + [["remove", 0]], [["remove", 0]]],
                        [1, 1, 1, 1, 1, 1, 0, 1, 0, 2], P),
+        ] + [
+            # lookups overlapping membership calls on SHARED slots: nodes "1" and "11" share the ten slots
+            # "110".."119"; Get(key "11j") is parked between locating the slot and picking the member while
+            # Remove / re-Add of the node that was added second (it sits last in the slot) is started
+            self._conc(0, [first, second, "other"],
+                       [[["add", 0], ["add", 1], ["add", 2]], [["remove", 1], ["add", 1]] * 10],
+                       [0] * 6 + [st for j in range(10) for st in (["g", j, 1], ["g", (j + 3) % 10, 1])],
+                       [S("11%d" % j) for j in range(10)] + [S("key:%d" % i) for i in range(10)])
+            for first, second in (("1", "11"), ("11", "1"))
         ]
 
     def _gen_conc(self, rng):
         pool = rng.choice([["alpha", "beta", "gamma", "delta"], ["10.0.0.1:6379", "10.0.0.2:6379", "10.0.0.3:6379", "10.0.0.9:6379"],
-                           ["node1", "node11", "node2", "node12"], ["a", "a1", "a12", "b"]])
+                           ["node1", "node11", "node2", "node12"], ["a", "a1", "a12", "b"], ["1", "11", "12", "2"],
+                           ["node1", "node11", "node2", "node12"], ["1", "11", "12", "2"]])
         nodes = rng.sample(pool, rng.randint(2, 4))
         if rng.random() < 0.2:
             nodes.append(nodes[0])          # a second universe value with the same repr
@@ -487,7 +513,17 @@ class C15(Property):
         if threads[-1] == [["remove", hot]] and rng.random() < 0.7:
             sched.remove(len(threads) - 1)
             sched.append(len(threads) - 1)
-        return self._conc(R, nodes, threads, sched, probes(rng, 24))
+        ps = probes(rng, 24)
+        shared = self._shared_strings(nodes, Reff)
+        if shared:
+            ps = [S(k) for k in rng.sample(shared, min(8, len(shared)))] + ps[:16]
+        if rng.random() < 0.6:
+            # lookups that overlap a step (parked between slot lookup and member pick when the slot is shared)
+            for pos in rng.sample(range(len(sched)), min(len(sched), rng.randint(2, 6))):
+                p = rng.randrange(min(8, len(shared))) if shared and rng.random() < 0.8 else rng.randrange(len(ps))
+                if ps[p]["kind"] == "str":
+                    sched[pos] = ["g", p, sched[pos]]
+        return self._conc(R, nodes, threads, sched, ps)
 
     def _conc_steps(self, case, obs):
         """per schedule step: the actions that really ran, as (kind, node index, requested replicas)"""
@@ -495,7 +531,8 @@ class C15(Property):
         nxt = [0] * len(case["threads"])
         parked = [None] * len(case["threads"])
         steps = []
-        for ti, what in zip(case["sched"], obs.get("res") or []):
+        for st, what in zip(case["sched"], obs.get("res") or []):
+            ti = self._tid(st)
             acts = []
             if what == "ins":
                 o = parked[ti]
@@ -525,9 +562,13 @@ class C15(Property):
             seen.add(r)
             rows.append("(%d, %s)" % (ids[r], clist(["%d" % rank[int(h)] for h in obs["vh"][k]])))
         steps = []
-        for acts in self._conc_steps(case, obs):
-            steps.append(clist(["ARemove %d" % ids[obs["reprs"][k]] if kind == "rem" else
-                                "AInsert (mkNode %d %d) %s" % (ids[obs["reprs"][k]], k, cz(r)) for kind, k, r in acts]))
+        gobs = obs.get("gobs") or [[]] * len(case["sched"])
+        b = lambda x: "true" if x else "false"
+        for acts, go in zip(self._conc_steps(case, obs), gobs):
+            steps.append("(%s, %s)" % (
+                clist(["ARemove %d" % ids[obs["reprs"][k]] if kind == "rem" else
+                       "AInsert (mkNode %d %d) %s" % (ids[obs["reprs"][k]], k, cz(r)) for kind, k, r in acts]),
+                "Some (%d, %s, %s, %s)" % (go[0], cz(go[1]), b(go[2]), b(go[3])) if go else "None"))
         ps = clist(["(%d, %s)" % (rank[int(a)], b) for a, b in obs["ph"]])
         gets = clist([clist([cz(g) for g in row]) for row in obs["gets"]])
         return "ConcCase (mkConc %s %s %s %s %s)" % (cz(obs["r"]), clist(rows), clist(steps), ps, gets)
@@ -812,18 +853,22 @@ class C15(Property):
                     first = sum(self._op_len(p) for p in ops[:j])
                     drop = set(range(first, first + self._op_len(o)))
                     sched, seen = [], 0
-                    for t in case["sched"]:
-                        if t == ti:
+                    for st in case["sched"]:
+                        if self._tid(st) == ti:
                             if seen not in drop:
-                                sched.append(t)
+                                sched.append(st)
                             seen += 1
                         else:
-                            sched.append(t)
+                            sched.append(st)
                     c = dict(case)
                     c["threads"] = [l if i != ti else ops[:j] + ops[j + 1:] for i, l in enumerate(case["threads"])]
                     c["sched"] = sched
                     res.append(c)
-            if len(case["probes"]) > 4:
+            # a lookup step becomes a plain step
+            for i, st in enumerate(case["sched"]):
+                if not isinstance(st, int):
+                    res.append(dict(case, sched=case["sched"][:i] + [st[2]] + case["sched"][i + 1:]))
+            if len(case["probes"]) > 4 and all(isinstance(st, int) for st in case["sched"]):
                 res.append(dict(case, probes=case["probes"][:len(case["probes"]) // 2]))
                 res.append(dict(case, probes=case["probes"][len(case["probes"]) // 2:]))
             return res
@@ -892,6 +937,13 @@ class C15(Property):
                 fs.append("conc_two_layers_of_one_node")
             if removed_mixed:
                 fs.append("conc_remove_of_a_layered_node")
+            for go in obs.get("gobs") or []:
+                if go:
+                    fs.append("conc_lookup_overlapping_a_step")
+                    if go[2]:
+                        fs.append("conc_lookup_parked_on_shared_slot")
+                    if go[3]:
+                        fs.append("conc_step_ran_inside_lookup")
             if "remins" in (obs.get("res") or []):
                 fs.append("conc_call_not_parked")
             if any(w == "ins" for w in obs.get("res") or []):
@@ -950,7 +1002,9 @@ class C15(Property):
         if case.get("kind") == "conc":
             return ("concurrent ring: after a schedule step Get answered a node that has no layer left (its last "
                     "action is a Remove), none although a node has live virtual nodes, or a value that does not own "
-                    "the successor slot among the live virtual nodes of all layers (res = what each step did)")
+                    "the successor slot among the live virtual nodes of all layers; or a lookup overlapping a step "
+                    "answered a value that is right neither before nor after the step (gobs = [probe, answer, "
+                    "parked, step ran inside the lookup]; -3 = a value never added, e.g. nil) (res = what each step did)")
         if case.get("kind") == "script":
             return ("cluster script: a command naming a key reached a server other than the one the instance's ring "
                     "designates for that key (touches = key*64+server per step), a key of the operation reached no "
